@@ -722,6 +722,14 @@ func (h *sentPacketHandler) lossDetectionTime(now monotime.Time) alarmTimer {
 	// cancel the alarm if no packets are outstanding
 	if h.peerCompletedAddressValidation && !h.hasOutstandingCryptoPackets() &&
 		!h.appDataPackets.history.HasOutstandingPackets() && !h.appDataPackets.history.HasOutstandingPathProbes() {
+		// A Path MTU probe packet doesn't count as outstanding, but it might be waiting for its loss time.
+		if lossTime, encLevel := h.getLossTimeAndSpace(); !lossTime.IsZero() {
+			return alarmTimer{
+				Time:            lossTime,
+				TimerType:       qlog.TimerTypeACK,
+				EncryptionLevel: encLevel,
+			}
+		}
 		return alarmTimer{}
 	}
 
